@@ -481,6 +481,10 @@ type Contract struct {
 	Modifies    []string // raw location specs; nil = nothing
 	ModifiesSet bool
 	Loops       map[int]*LoopContract
+	// loop clauses for the loops of callees inlined into this function ("loop 1 in (*seqbag).IterateAll",
+	// optionally "...#2" = only the 2nd inlining of that callee): key = callee key [+ "#k"]. Naming a callee here
+	// asks for it to be inlined in this function even when it has a contract of its own.
+	InlLoops    map[string]map[int]*LoopContract
 	Inline      bool
 	Trusted     bool // assumed contract (body not verified)
 	TrustWhy    string
@@ -804,6 +808,21 @@ func ParseSpecFile(path, pkg, content string) (*SpecFile, error) {
 				return nil, fmt.Errorf("%s:%d: loop needs an ordinal", path, l.line)
 			}
 			curLoop = &LoopContract{Ordinal: n}
+			if len(f) >= 3 && f[1] == "in" {
+				// loop <n> in <callee key>[#k]: loop n of a callee inlined into this function
+				key := strings.Join(f[2:], " ")
+				if cur.InlLoops == nil {
+					cur.InlLoops = map[string]map[int]*LoopContract{}
+				}
+				if cur.InlLoops[key] == nil {
+					cur.InlLoops[key] = map[int]*LoopContract{}
+				}
+				cur.InlLoops[key][n] = curLoop
+				break
+			}
+			if len(f) != 1 {
+				return nil, fmt.Errorf("%s:%d: loop: expected `loop <n>` or `loop <n> in <callee>`", path, l.line)
+			}
 			cur.Loops[n] = curLoop
 		case "noauto":
 			if curLoop != nil {
